@@ -285,7 +285,7 @@ CLAUSE_PROP = {
     "maintenance-evicts-unexpired": "C12", "unexpired-missing": "C12",
     # C13: capacity and cost accounting
     "cost-drift": "C13", "cost-drift-stale-write-event": "C13", "cost-drift-readmit": "C13",
-    "cost-drift-partial-drain": "C13",
+    "cost-drift-partial-drain": "C13", "cost-drift-dropped-event": "C13",
     "capacity-exceeded": "C13", "capacity-stale-write-event": "C13", "capacity-readmit": "C13",
     "capacity-partial-drain": "C13",
     # C16: listener
@@ -633,6 +633,7 @@ class Monitor:
                 hidden += cur.cost    # expired, possibly still resident
         h = self.h
         shape = ("readmit" if (h.pol == "fifo" and self.overwrite_cost and self.nm) else
+                 "dropped-event" if (self.dropped and self.overwrite_cost) else
                  "partial-drain" if (self.partial_drain and self.overwrite_cost) else
                  "stale-write-event" if self.stale_event else None)
         if not (visible <= cc <= visible + hidden):
